@@ -381,3 +381,128 @@ Lemma exS_both :
   | _, _ => false
   end = true.
 Proof. vm_compute. reflexivity. Qed.
+
+(** * 6. The same, with CParity cutoffs elsewhere in the graph: only what [eval] reads below [n] matters *)
+Fixpoint outs (fuel : nat) (e : texp) : list nid :=
+  match fuel with
+  | O => []
+  | S fuel =>
+    match e with
+    | TOuter t => [t]
+    | TMap _ e | TCut _ e => outs fuel e
+    | TMap2 _ e1 e2 => outs fuel e1 ++ outs fuel e2
+    | TBind cs e => concat (map (outs fuel) cs) ++ outs fuel e
+    | _ => []
+    end
+  end.
+
+(* [a] is read by the from-scratch evaluation of [n] *)
+Definition reads (s : state) (n a : nid) : Prop :=
+  match nkind (nd s n) with
+  | KBindMain b => a = b_lhs (bd s b) \/ exists c F, c ∈ b_cases (bd s b) /\ a ∈ outs F c
+  | KBindLhs _ | KVar _ | KReturn => False
+  | _ => a ∈ decl (nd s n)
+  end.
+
+Definition pfree (s : state) (n : nid) : Prop :=
+  forall m, rtc (reads s) n m -> nkind (nd s m) <> KCutoff CParity.
+
+Lemma pfree_step s n a : pfree s n -> reads s n a -> pfree s a.
+Proof. intros H R m Hm. apply H. eapply rtc_l; eauto. Qed.
+
+Lemma evalT_outs_ext (ev ev' : nid -> option Z) :
+  forall F x e, (forall t, t ∈ outs F e -> ev' t = ev t) -> evalT F ev' x e = evalT F ev x e.
+Proof.
+  induction F as [|F IH]; intros x e H; [reflexivity|].
+  destruct e; cbn [evalT]; try reflexivity.
+  - apply H. cbn. left.
+  - rewrite (IH x e); [reflexivity|]. intros t Ht. apply H. cbn. exact Ht.
+  - rewrite (IH x e1), (IH x e2); [reflexivity| |]; intros t Ht; apply H; cbn; apply elem_of_app; auto.
+  - destruct c; try reflexivity; apply IH; intros t Ht; apply H; cbn; exact Ht.
+  - rewrite (IH x e); [|intros t Ht; apply H; cbn; apply elem_of_app; right; exact Ht].
+    destruct (evalT F ev x e) as [y|]; [|reflexivity]. apply IH. intros t Ht. apply H. cbn. apply elem_of_app. left.
+    unfold select in Ht. destruct (nth_in_or_default (Z.to_nat (y mod Z.of_nat (length cases))) cases TNil) as [Hin|Hd].
+    + apply elem_of_list_In in Hin. apply elem_of_list_In, in_concat. exists (outs F (nth (Z.to_nat (y mod Z.of_nat (length cases))) cases TNil)).
+      split; [apply in_map, elem_of_list_In, Hin|apply elem_of_list_In, Ht].
+    + rewrite Hd in Ht. destruct F; inversion Ht.
+Qed.
+
+Lemma eval_ext_TF_pfree s s' :
+  Inv s -> TF s s' -> forall F n, has s n -> pfree s n -> eval s' F n = eval s F n.
+Proof.
+  intros IV [A B]. induction F as [|F IH]; intros n Hn NP; [reflexivity|].
+  cbn [eval]. cbv zeta. destruct (A n Hn) as (_ & Ek & Ed & Ev). rewrite Ek.
+  assert (Hdecl : forall a, a ∈ decl (nd s n) -> has s a) by (intros a; apply (io_decl _ (inv_ids _ IV) n)).
+  destruct (nkind (nd s n)) as [eqv| |f|f|f|c| |b|b] eqn:K; try reflexivity.
+  - rewrite (Ev eq_refl). reflexivity.
+  - rewrite (Ev eq_refl). reflexivity.
+  - assert (Hr : forall a, a ∈ decl (nd s n) -> pfree s a) by (intros a Ha; apply (pfree_step s n a NP); unfold reads; rewrite K; exact Ha).
+    rewrite (Ed eq_refl). destruct (decl (nd s n)) as [|a [|? ?]] eqn:D; try reflexivity.
+    rewrite (IH a) by (try apply Hdecl; try apply Hr; left). reflexivity.
+  - assert (Hr : forall a, a ∈ decl (nd s n) -> pfree s a) by (intros a Ha; apply (pfree_step s n a NP); unfold reads; rewrite K; exact Ha).
+    rewrite (Ed eq_refl). destruct (decl (nd s n)) as [|a1 [|a2 [|? ?]]] eqn:D; try reflexivity.
+    rewrite (IH a1), (IH a2) by (try apply Hdecl; try apply Hr; repeat constructor). reflexivity.
+  - assert (Hr : forall a, a ∈ decl (nd s n) -> pfree s a) by (intros a Ha; apply (pfree_step s n a NP); unfold reads; rewrite K; exact Ha).
+    rewrite (Ed eq_refl). rewrite (mapM_ext_in (eval s' F) (eval s F)); [reflexivity|].
+    intros a Ha. apply IH; [apply Hdecl, Ha|apply Hr, Ha].
+  - assert (Hr : forall a, a ∈ decl (nd s n) -> pfree s a) by (intros a Ha; apply (pfree_step s n a NP); unfold reads; rewrite K; exact Ha).
+    rewrite (Ed eq_refl). destruct (decl (nd s n)) as [|a [|? ?]] eqn:D; try reflexivity.
+    destruct c; try reflexivity; try (apply IH; [apply Hdecl; left|apply Hr; left]).
+    exfalso. exact (NP n (rtc_refl _ _) K).
+  - assert (Hr : forall a, a ∈ decl (nd s n) -> pfree s a) by (intros a Ha; apply (pfree_step s n a NP); unfold reads; rewrite K; exact Ha).
+    rewrite (Ed eq_refl). destruct (decl (nd s n)) as [|a [|? ?]] eqn:D; try reflexivity. apply IH; [apply Hdecl; left|apply Hr; left].
+  - pose proof (inv_kinds _ IV n Hn) as Kk. rewrite K in Kk. destruct Kk as [-> [r Hr]].
+    destruct (B b (ex_intro _ r Hr)) as (_ & Ec & El). rewrite Ec, El.
+    pose proof (inv_binds _ IV b r Hr) as W.
+    assert (Hbd : bd s b = r) by (unfold bd; rewrite Hr; reflexivity).
+    assert (Hl : has s (b_lhs (bd s b))).
+    { apply (io_decl _ (inv_ids _ IV) b). rewrite (bw_decl_lhs _ _ _ W), Hbd. left. }
+    assert (Hpl : pfree s (b_lhs (bd s b))) by (apply (pfree_step s (S b) _ NP); unfold reads; rewrite K; left; reflexivity).
+    rewrite (IH _ Hl Hpl). destruct (eval s F (b_lhs (bd s b))) as [v|]; [|reflexivity].
+    apply evalT_outs_ext. intros t Ht.
+    assert (Hrt : reads s (S b) t).
+    { unfold reads. rewrite K. right. unfold select in Ht.
+      destruct (nth_in_or_default (Z.to_nat (v mod Z.of_nat (length (b_cases (bd s b))))) (b_cases (bd s b)) TNil) as [Hin|Hd].
+      - eexists _, F. split; [apply elem_of_list_In, Hin|exact Ht].
+      - rewrite Hd in Ht. destruct F; inversion Ht. }
+    apply IH; [|apply (pfree_step s (S b) t NP Hrt)].
+    (* the outer references of a well-formed template exist *)
+    destruct (chain_exists s (inv_scopes _ IV) b) as (tt & d & Hc).
+    pose proof (bw_cases _ _ _ W tt d Hc) as Wc. rewrite <- Hbd in Wc.
+    clear -Ht Wc. revert Ht. unfold select.
+    destruct (nth_in_or_default (Z.to_nat (v mod Z.of_nat (length (b_cases (bd s b))))) (b_cases (bd s b)) TNil) as [Hin|Hd];
+      [|rewrite Hd; destruct F; intros Ht; inversion Ht].
+    rewrite Forall_forall in Wc. specialize (Wc _ Hin). revert Wc.
+    generalize (nth (Z.to_nat (v mod Z.of_nat (length (b_cases (bd s b))))) (b_cases (bd s b)) TNil). generalize true.
+    induction F as [|F IHF]; intros root e We Ht; [inversion Ht|].
+    destruct e; cbn [outs] in Ht; try (inversion Ht; fail).
+    + apply elem_of_list_singleton in Ht as ->. apply We.
+    + apply (IHF false e We Ht).
+    + cbn [texp_wf] in We. apply elem_of_app in Ht as [Ht|Ht]; [apply (IHF false e1 (proj1 We) Ht)|apply (IHF false e2 (proj2 We) Ht)].
+    + apply (IHF false e We Ht).
+    + cbn [texp_wf] in We. destruct We as [Wcs We]. apply elem_of_app in Ht as [Ht|Ht]; [|apply (IHF false e We Ht)].
+      apply elem_of_list_In, in_concat in Ht as (l0 & Hl0 & Ht). apply in_map_iff in Hl0 as (c0 & <- & Hc0).
+      apply (IHF true c0); [|apply elem_of_list_In, Ht]. clear -Wcs Hc0. induction cases as [|c1 cs IHc]; [inversion Hc0|].
+      destruct Wcs as [W1 W2]. destruct Hc0 as [<-|Hc0]; [exact W1|apply IHc; assumption].
+Qed.
+
+Theorem C04_binds_values_pfree_proof s sS sP :
+  Inv s -> ValInvB s -> Tplain s -> templates_ok s = true ->
+  stabilize [] false s = Ok (sS, None) -> parStabilize [] s = Ok (sP, None) ->
+  forall n, has s n -> pfree s n -> inGraph (nd sS n) = true -> inGraph (nd sP n) = true -> notLhs s n = true ->
+    valueOf sS n = valueOf sP n.
+Proof.
+  intros IV V TP Ht HS HP n Hn NP HgS HgP Hnl.
+  pose proof (passTF_serial s sS IV V TP HS) as FS. pose proof (passTF_par s sP IV V TP HP) as FP.
+  destruct (passS_consistent s sS IV V TP HS) as (HcS & IS & HwfS & HShS).
+  destruct (passS_ValInvB s sS IV V TP HS) as (_ & _ & CS).
+  destruct (parS_consistent s sP IV V TP HP) as (HcP & IP & HwfP & HShP & _ & _ & CP).
+  assert (HnlS : notLhs sS n = true) by (unfold notLhs in *; destruct (tf_node _ _ FS n Hn) as (_ & -> & _); exact Hnl).
+  assert (HnlP : notLhs sP n = true) by (unfold notLhs in *; destruct (tf_node _ _ FP n Hn) as (_ & -> & _); exact Hnl).
+  destruct (consistent_registered_eval sS HwfS (Inv_closed sS IS HShS) (templates_ok_CF s sS CS Ht) HcS n HgS HnlS) as [BS ES].
+  destruct (consistent_registered_eval sP HwfP (Inv_closed sP IP HShP) (templates_ok_CF s sP CP Ht) HcP n HgP HnlP) as [BP EP].
+  set (F := (next sS + next sP)%nat).
+  pose proof (ES F ltac:(unfold F; lia)) as E1. pose proof (EP F ltac:(unfold F; lia)) as E2.
+  rewrite (eval_ext_TF_pfree s sS IV FS F n Hn NP) in E1. rewrite (eval_ext_TF_pfree s sP IV FP F n Hn NP) in E2.
+  congruence.
+Qed.
